@@ -451,9 +451,11 @@ class PolygonTensor(PolytopeTensor):
             if isinstance(other, Point) and i.ndim == 1:
                 other = Point(np.delete(other.array, i), copy=False)
             else:
-                s = other.shape[:-1] + (1, other.shape[-1])
-                other = np.delete(other.array, np.ravel_multi_index((*tuple(np.indices(s[:-1])), i), s))
-                other = PointCollection(other.reshape(s[:-2] + (-1,)), copy=False)
+                # a single point is tested against every polygon of the collection
+                o = np.broadcast_to(other.array, np.broadcast_shapes(other.shape[:-1], i.shape[:-1]) + other.shape[-1:])
+                s = o.shape[:-1] + (1, o.shape[-1])
+                o = np.delete(o, np.ravel_multi_index((*tuple(np.indices(s[:-1])), i), s))
+                other = PointCollection(o.reshape(s[:-2] + (-1,)), copy=False)
 
             # TODO: only test coplanar points
             return coplanar & PolygonCollection.from_array(arr).contains(other)
